@@ -164,8 +164,6 @@ const preludeCommon = `
 (declare-fun ssub (Str Int Int) Str)
 (declare-fun rootid (Ref) Int)
 (declare-fun rtype (Ref) Int)
-(assert (forall ((r Ref) (i Int)) (! (= (rootid (fld r i)) (rootid r)) :pattern ((fld r i)))))
-(assert (forall ((r Ref) (i Int)) (! (= (rootid (elm r i)) (rootid r)) :pattern ((elm r i)))))
 (declare-fun box_fp ((_ FloatingPoint 11 53)) Int)
 (declare-fun unbox_fp (Int) (_ FloatingPoint 11 53))
 (declare-fun box_str (Str) Int)
@@ -180,6 +178,22 @@ const preludeCommon = `
 (define-fun iabs ((a Int)) Int (ite (>= a 0) a (- a)))
 (define-fun b2i ((b Bool)) Int (ite b 1 0))
 `
+
+// rootAxioms: interior references belong to the allocation of their base. Only added to queries
+// that already contain quantifiers (ground instances are asserted where the terms are built), so
+// that quantifier-free queries keep producing models.
+const rootAxioms = `(assert (forall ((r Ref) (i Int)) (! (= (rootid (fld r i)) (rootid r)) :pattern ((fld r i)))))
+(assert (forall ((r Ref) (i Int)) (! (= (rootid (elm r i)) (rootid r)) :pattern ((elm r i)))))
+`
+
+// withAxioms inserts the quantified axioms after the prelude of a complete query when the
+// query is quantified anyway.
+func withAxioms(prelude, rest string) string {
+	if strings.Contains(rest, "(forall ") || strings.Contains(rest, "sk!") {
+		return prelude + rootAxioms + rest
+	}
+	return prelude + rest
+}
 
 func wrapDefs() string {
 	var sb strings.Builder
